@@ -9,7 +9,7 @@
    of the property are evaluated on the implementation (lib/p_C09.py).  The n*eps bounds are floating-point statements, not theorems. *)
 From SV Require Import Ops LinAlg TridiagEig Schur.
 From mathcomp Require Import all_ssreflect all_algebra.
-From SV Require Import OpsF TEigPf SchurPf.
+From SV Require Import OpsF TEigPf SchurPf SchurShape.
 Set Implicit Arguments. Unset Strict Implicit. Unset Printing Implicit Defensive.
 Import GRing.Theory Num.Theory.
 Local Open Scope ring_scope.
@@ -86,6 +86,17 @@ Theorem C09_schur_U_orthogonal : forall (F : rcfType) (eps min_ : F) (n : nat) (
 Proof. move=> F eps min_ n M Tm U m0 h; exact: (sc_compute_U_orthogonal m0 h). Qed.
 Print Assumptions C09_schur_U_orthogonal.
 
+(* the shape of T, for EVERY scalar instance (the binary64 one that is tied bit for bit included), every n and every n x n upper Hessenberg input:
+   whenever the model of UpperHessenbergSchur::compute returns, either it took the early exit for a matrix of norm zero (T is the input) or T is
+   literally zero below the sub-diagonal and no two consecutive sub-diagonal entries are both non-zero - quasi-upper-triangular with 1x1 / 2x2
+   diagonal blocks, which is the shape UpperHessenbergEigen's eigenvalue extraction (C09_value_shape) walks over *)
+Theorem C09_schur_T_quasi_triangular : forall (o : Ops) (eps min_ : T o) (n : nat) (M Tm U : mat o),
+  SchurShape.wfm n M -> Hess n M -> sc_compute o eps min_ n M = Some (Tm, U) ->
+  (Ops.eqb o (l1_norm o n M) (zero o) = true /\ Tm = M) \/
+  (SchurShape.wfm n Tm /\ Hess n Tm /\ forall i, (i + 2 < n)%N -> mget o Tm (i + 1)%N i = zero o \/ mget o Tm (i + 2)%N (i + 1)%N = zero o).
+Proof. move=> o eps min_ n M Tm U; exact: sc_compute_quasi_triangular. Qed.
+Print Assumptions C09_schur_T_quasi_triangular.
+
 (* non-vacuity: a 2x2 rotation block yields one conjugate pair, a diagonal matrix yields real values *)
 Example C09_nonvacuous : forall F : rcfType,
   he_values (OpsF F) 2 2 0 [:: [:: 0; 1]; [:: -1; 0]] = [:: (0, 1); (0, -1)].
@@ -102,3 +113,9 @@ Proof.
 move=> F eps min_; rewrite /sc_compute /l1_norm /= /abs_sum /= add0r normr1 oner_eq0 /=.
 by rewrite /mget /mcol /vnth /mset /mapi /= addr0.
 Qed.
+
+(* non-vacuity of C09_schur_T_quasi_triangular on the binary64 instance: a 3 x 3 Hessenberg matrix (columns listed) on which the model returns *)
+Example C09_schur_shape_nonvacuous :
+  let M := [:: [:: 2; 1; 0]; [:: 1; 3; 1]; [:: 4; 1; 1]]%float in
+  (if sc_compute OpsFloat 0x1p-52%float 0x1p-1022%float 3 M is Some (Tm, _) then PrimFloat.eqb (mget OpsFloat Tm 2 0) 0%float else false) = true.
+Proof. by vm_compute. Qed.
